@@ -77,3 +77,65 @@ func (e *endableCtx) Err() error {
 	return e.err
 }
 func (e *endableCtx) Value(any) any { return nil }
+
+// Stack phase. Go moves a goroutine's stack when it has to grow. Code that turns a pointer to one
+// of its own locals into a uintptr and only later (in a callee) hands it to the kernel is correct
+// only as long as no growth falls in between; whether it does depends on how deep the caller already
+// is - a property of the caller's history that no argument value expresses. withStackPhase runs f
+// on a fresh goroutine below `levels` padding frames (about 80 bytes each) plus `fine` bytes, so
+// that a sweep over (levels, fine) moves the first growth across every call boundary of f.
+func withStackPhase(levels, fine int, f func()) {
+	done := make(chan struct{})
+	var pv any
+	go func() {
+		defer close(done)
+		defer func() { pv = recover() }()
+		padStack(levels, func() { padFine(fine, f) })
+	}()
+	<-done
+	if pv != nil {
+		panic(pv)
+	}
+}
+
+var padSink byte
+
+//go:noinline
+func padStack(n int, f func()) {
+	var b [48]byte
+	b[n%48] = byte(n)
+	if n == 0 {
+		f()
+	} else {
+		padStack(n-1, f)
+	}
+	padSink += b[(n+1)%48]
+}
+
+//go:noinline
+func padFine(k int, f func()) {
+	switch k / 16 {
+	case 1:
+		pad16(f)
+	case 2:
+		pad32(f)
+	case 3:
+		pad48(f)
+	case 4:
+		pad64(f)
+	default:
+		f()
+	}
+}
+
+//go:noinline
+func pad16(f func()) { var b [16]byte; b[1] = 1; f(); padSink += b[2] }
+
+//go:noinline
+func pad32(f func()) { var b [32]byte; b[1] = 1; f(); padSink += b[2] }
+
+//go:noinline
+func pad48(f func()) { var b [48]byte; b[1] = 1; f(); padSink += b[2] }
+
+//go:noinline
+func pad64(f func()) { var b [64]byte; b[1] = 1; f(); padSink += b[2] }
